@@ -614,7 +614,14 @@ private:
       // pending constraints requires the cached point of an LP problem
       // to be the vertex encoded by its tableau: recompute it.
       if (lp.status == PARTIALLY_SATISFIABLE && lp.initialized) {
-        lp.compute_generator();
+        try {
+          lp.compute_generator();
+        }
+        catch (...) {
+          // The destructor is not going to be run: undo the relaxation.
+          swap(i_vars, lp.i_variables);
+          throw;
+        }
       }
     }
 
